@@ -54,21 +54,25 @@ Theorem C18_engine_no_fuel : forall tbl f c b args i,
 Proof. exact built_no_fuel. Qed.
 Print Assumptions C18_engine_no_fuel.
 
-(** a successful completion decomposes into build, shadow parse and [complete_arg] *)
+(** a successful completion decomposes into build, shadow parse and [complete_arg_v] (= the engine's [complete_arg] with
+    the flag [valid_arg_found] of the repair of finding C18-args-conflict).  [complete_arg] (without the flag; all the
+    theorems below are stated for it) is the same function with the flag off, and [complete_arg_v tbl w cur pi st vaf]
+    = [complete_arg tbl w (sub_cut cur vaf) pi st]: behind an argument of a command whose arguments conflict with
+    subcommands the candidates are those of the command WITHOUT its subcommands ([sub_cut]) *)
 Theorem C18_model_decomposes : forall tbl c args i l, complete_model tbl c args i = COk l ->
-  exists b w cur pi st esc,
-    build_full (build_fuel c) c = BOk b /\ start_walk b args i = WAt w cur pi st esc /\
-    complete_arg tbl w cur pi st = COk l.
+  exists b w cur pi st esc vaf,
+    build_full (build_fuel c) c = BOk b /\ start_walk b args i = WAt w cur pi st esc vaf /\
+    complete_arg_v tbl w cur pi st vaf = COk l /\ complete_arg tbl w (sub_cut cur vaf) pi st = COk l.
 Proof. exact model_ok_inv. Qed.
 Print Assumptions C18_model_decomposes.
 
 (** Soundness: in state [ValueDone] every option/subcommand candidate (i) extends the word,
     (ii) names an option, alias or subcommand of the level [cur], which is a node of the built tree
     reached by the shadow parse, (iii) is resolved as such by the parser model's lookups. *)
-Theorem C18_sound : forall tbl c b args i w cur pi esc l cd,
+Theorem C18_sound : forall tbl c b args i w cur pi esc vaf l cd,
   build_full (build_fuel c) c = BOk b ->
-  start_walk b args i = WAt w cur pi ValueDone esc ->
-  complete_arg tbl w cur pi ValueDone = COk l -> In cd l ->
+  start_walk b args i = WAt w cur pi ValueDone esc vaf ->
+  complete_arg_v tbl w cur pi ValueDone vaf = COk l -> In cd l ->
   reach b cur /\ cand_sound w cur cd /\ cand_resolves cur cd.
 Proof. exact sound. Qed.
 Print Assumptions C18_sound.
@@ -321,7 +325,7 @@ Theorem C18_long_alias_value_refuted : exists tbl c a alias v,
     In a (c_args c) /\ In alias (vis_aliases (a_aliases a)) /\
     possible_values tbl a = Some (Some [(v, false)]) /\
     complete_arg_value_done tbl (dd ++ alias ++ [EQ]) c 1 = COk [] /\
-    start_walk c [[112]; dd ++ alias; []] 2 = WAt [] c 1 (Opt a 1) false /\
+    start_walk c [[112]; dd ++ alias; []] 2 = WAt [] c 1 (Opt a 1) false true /\
     complete_arg tbl [] c 1 (Opt a 1) = COk [mkCand v None false].
 Proof. exact long_alias_value_refuted. Qed.
 Print Assumptions C18_long_alias_value_refuted.
@@ -414,7 +418,7 @@ Print Assumptions C18_state_agreement_open.
 Theorem C18_shadow_line : forall c0 bin line w after pcf f b,
   tree_all unb c0 -> is_set s_no_binary_name c0 = false -> N.of_nat (length line) + 2 <= usize_max ->
   build_full f c0 = BOk b -> cline (build_self (ActionsTop.with_bin c0 bin)) line pcf ->
-  exists curf pif, start_walk b (bin :: line ++ w :: after) (N.of_nat (S (length line))) = WAt w curf pif ValueDone false
+  exists curf pif evf, start_walk b (bin :: line ++ w :: after) (N.of_nat (S (length line))) = WAt w curf pif ValueDone false evf
                    /\ lvl_rel pcf curf.
 Proof. exact shadow_line. Qed.
 Print Assumptions C18_shadow_line.
@@ -443,7 +447,7 @@ Print Assumptions C18_line_classes_decidable.
 Theorem C18_require_equals_refuted : exists tbl c0 bin line cd,
   (exists m, parse_top c0 (bin :: line) = OOk m) /\
   (exists b cur a, build_full (build_fuel c0) c0 = BOk b /\
-     start_walk b (bin :: line ++ [[]]) (N.of_nat (S (length line))) = WAt [] cur 1 (Opt a 1) false /\ a_req_eq a = true) /\
+     start_walk b (bin :: line ++ [[]]) (N.of_nat (S (length line))) = WAt [] cur 1 (Opt a 1) false true /\ a_req_eq a = true) /\
   (exists l, complete_model tbl c0 (bin :: line ++ [[]]) (N.of_nat (S (length line))) = COk l /\ In cd l) /\
   (exists e, parse_top c0 (bin :: line ++ [cd_value cd]) = OErr e /\ e_kind e = EUnknownArgument).
 Proof. exact require_equals_refuted. Qed.
@@ -642,12 +646,12 @@ Theorem C18_state_agreement_positionals : forall pc cur pre F pst pos est, eleve
 Proof. exact state_agreement_positionals. Qed.
 Print Assumptions C18_state_agreement_positionals.
 
-(** whole lines, engine side: [ValueDone], before `--`, at a level related to the parser's final level, and the
-    engine's [pos_index] IS the parser's positional counter [posf] *)
+(** whole lines, engine side: [ValueDone], before `--`, at a level related to the parser's final level, the
+    engine's [pos_index] IS the parser's positional counter [posf] and its [valid_arg_found] the parser's flag [vf] *)
 Theorem C18_shadow_pline : forall c0 bin line w after pcf posf vf f b,
   tree_all unb c0 -> is_set s_no_binary_name c0 = false -> N.of_nat (length line) + 2 <= usize_max ->
   build_full f c0 = BOk b -> pline (build_self (ActionsTop.with_bin c0 bin)) line pcf posf vf ->
-  exists curf, start_walk b (bin :: line ++ w :: after) (N.of_nat (S (length line))) = WAt w curf posf ValueDone false
+  exists curf, start_walk b (bin :: line ++ w :: after) (N.of_nat (S (length line))) = WAt w curf posf ValueDone false vf
                /\ lvl_rel pcf curf.
 Proof. exact shadow_pline. Qed.
 Print Assumptions C18_shadow_pline.
@@ -718,8 +722,8 @@ Print Assumptions C18_args_conflict_levels.
 (** BEFORE / AFTER the repair (finding C18-args-conflict; corpus/C18/accept.args-conflict.cases).  W2,
     `p(-f; <file>; args_conflicts) -> sub(--opt)`: the parser ACCEPTS `p -f sub` (`sub` is the value of <file>) and rejects
     `p -f sub --opt` with UnknownArgument; BEFORE the repair the engine ([complete_model_before_fix]) stood at `sub` and
-    offered `--opt` (id arg::opt); AFTER it stands at `p` and does not.  W1 (no positional; unchanged): `p -f <TAB>` offers
-    the subcommand `sub`, which the parser rejects with ArgumentConflict (not an unknown-token kind) *)
+    offered `--opt` (id arg::opt); AFTER it stands at `p` and does not.  W1 (no positional): BEFORE, `p -f <TAB>` offered
+    the subcommand `sub`, which the parser rejects with ArgumentConflict; AFTER ([complete_arg] is told the flag) it does not *)
 Theorem C18_args_conflict_before_after :
   Conflict.accepted (parse_top Conflict.c2 [[112]; Conflict.f; Conflict.w_sub]) = true /\
   Conflict.kind_of (parse_top Conflict.c2 [[112]; Conflict.f; Conflict.w_sub; 45 :: 45 :: Conflict.w_opt]) = Some EUnknownArgument /\
@@ -729,7 +733,8 @@ Theorem C18_args_conflict_before_after :
   Conflict.level_at Conflict.c2 [[112]; Conflict.f; Conflict.w_sub; [45; 45]] 3 = Some [112] /\
   Conflict.has_cand (45 :: 45 :: Conflict.w_opt) (IdArg Conflict.w_opt)
     (complete_model [] Conflict.c2 [[112]; Conflict.f; Conflict.w_sub; [45; 45]] 3) = false /\
-  Conflict.has_cand Conflict.w_sub (IdCmd Conflict.w_sub) (complete_model [] Conflict.c1 [[112]; Conflict.f; []] 2) = true /\
+  Conflict.has_cand Conflict.w_sub (IdCmd Conflict.w_sub) (complete_model_before_fix [] Conflict.c1 [[112]; Conflict.f; []] 2) = true /\
+  Conflict.has_cand Conflict.w_sub (IdCmd Conflict.w_sub) (complete_model [] Conflict.c1 [[112]; Conflict.f; []] 2) = false /\
   Conflict.kind_of (parse_top Conflict.c1 [[112]; Conflict.f; Conflict.w_sub]) = Some EArgumentConflict /\
   Conflict.level_at_before_fix Conflict.c1 [[112]; Conflict.f; Conflict.w_sub; []] 3 = Some Conflict.w_sub /\
   Conflict.level_at Conflict.c1 [[112]; Conflict.f; Conflict.w_sub; []] 3 = Some [112].
@@ -774,3 +779,31 @@ Theorem C18_order_is_permutation : forall ot tbl w c pi st l',
   exists l, complete_arg tbl w c pi st = COk l /\ Permutation l' l.
 Proof. exact complete_arg_ord_perm_all. Qed.
 Print Assumptions C18_order_is_permutation.
+
+(** ... and of the engine's [complete_arg] with [valid_arg_found] ([complete_arg_v]; [complete_arg_ord_v] is what
+    [complete_model_ord] calls) *)
+Theorem C18_order_is_permutation_v : forall ot tbl w c pi st vaf l',
+  complete_arg_ord_v ot tbl w c pi st vaf = COk l' ->
+  exists l, complete_arg_v tbl w c pi st vaf = COk l /\ Permutation l' l.
+Proof. exact complete_arg_ord_v_perm. Qed.
+Print Assumptions C18_order_is_permutation_v.
+
+(** [complete_arg_v] (the engine's [complete_arg] with [valid_arg_found]) through [complete_arg]: every theorem stated for
+    [complete_arg tbl w c ..] holds for [complete_arg_v tbl w c .. vaf] with [c] replaced by [sub_cut c vaf] - [c] itself
+    unless an argument of [c] was seen and [c] sets [args_conflicts_with_subcommands], then [c] without its subcommands *)
+Theorem C18_complete_arg_v_cut : forall tbl w c pi st vaf,
+  complete_arg_v tbl w c pi st vaf = complete_arg tbl w (sub_cut c vaf) pi st.
+Proof. exact complete_arg_v_cut. Qed.
+Print Assumptions C18_complete_arg_v_cut.
+
+Theorem C18_complete_arg_v_flag_off : forall tbl w c pi st vaf, (is_set s_args_negate_subs c && vaf) = false ->
+  complete_arg_v tbl w c pi st vaf = complete_arg tbl w c pi st.
+Proof. exact complete_arg_v_flag_off. Qed.
+Print Assumptions C18_complete_arg_v_flag_off.
+
+(** behind an argument of a command whose arguments conflict with subcommands no subcommand candidate is offered *)
+Theorem C18_no_subcommand_candidates_behind_args : forall tbl w c pi st vaf l cd n,
+  (is_set s_args_negate_subs c && vaf) = true ->
+  complete_arg_v tbl w c pi st vaf = COk l -> In cd l -> cd_id cd <> Some (IdCmd n).
+Proof. exact no_subcommand_candidates_behind_args. Qed.
+Print Assumptions C18_no_subcommand_candidates_behind_args.
